@@ -170,8 +170,156 @@ func extractC18(repo string) (string, error) {
 	fmt.Fprintf(&b, "/-- result.Revision/AppliedRaftIndex are taken from `next` after the bump; a reject before init reports entry.Index -/\ndef resultShape : Bool := %v\n\n", resultShape)
 	fmt.Fprintf(&b, "/-- after the loop: `if next.Revision == 0 { return }`, then `sm.store.Save(ctx, next)` with error return, then the only `sm.state = next.Clone()` -/\ndef saveBeforePublish : Bool := %v\n\n", saveBeforePublish)
 	fmt.Fprintf(&b, "/-- validateChanged = `next.Revision++; next.UpdatedAt = ..; if Validate fails { *next = before; reject(invalid_state) }; changed()` -/\ndef validateChangedShape : Bool := %v\n\n", vcShape)
+	facts, err := c18HandlerFacts(repo)
+	if err != nil {
+		return "", err
+	}
+	b.WriteString("/-- rollback facts of every `apply*` handler of mutation_handlers.go -/\ndef handlerFacts : List HandlerFact := [\n")
+	for i, hf := range facts {
+		sep := ","
+		if i == len(facts)-1 {
+			sep = ""
+		}
+		fmt.Fprintf(&b, "  { name := %s, snapshot := %s, writes := %d, writesBeforeSnapshot := %v, validateArgsOk := %v, rejectsRestore := %v, otherReturns := %d, wholeReplace := %v }%s\n",
+			leanStr(hf.name), leanStr(hf.snapshot), hf.writes, hf.writesBefore, hf.validateOk, hf.rejectsRestore, hf.other, hf.wholeReplace, sep)
+	}
+	b.WriteString("]\n\n")
 	b.WriteString("end WK.Gen.C18\n")
 	return b.String(), nil
+}
+
+type c18HF struct {
+	name, snapshot                                         string
+	writes, other                                          int
+	writesBefore, validateOk, rejectsRestore, wholeReplace bool
+}
+
+// c18IsWrite: a statement that writes through the candidate `next`.
+func c18IsWrite(s ast.Stmt) bool {
+	switch x := s.(type) {
+	case *ast.AssignStmt:
+		for _, l := range x.Lhs {
+			t := exprText(l)
+			if strings.HasPrefix(t, "next.") || t == "*next" || strings.HasPrefix(t, "next[") {
+				return true
+			}
+		}
+	case *ast.IncDecStmt:
+		return strings.HasPrefix(exprText(x.X), "next.")
+	case *ast.ExprStmt:
+		if c, ok := x.X.(*ast.CallExpr); ok {
+			f := exprText(c.Fun)
+			if f == "next.Normalize" {
+				return true
+			}
+			if len(c.Args) > 0 && exprText(c.Args[0]) == "next" && f != "validateChanged" {
+				return true // upsertNode(next, ..), upsertTask(next, ..) ...
+			}
+		}
+	}
+	return false
+}
+
+func c18HandlerFacts(repo string) ([]c18HF, error) {
+	_, f, err := parseFile(repo, "pkg/controller/fsm/mutation_handlers.go")
+	if err != nil {
+		return nil, err
+	}
+	var out []c18HF
+	for _, d := range f.Decls {
+		fd, ok := d.(*ast.FuncDecl)
+		if !ok || fd.Recv == nil || !strings.HasPrefix(fd.Name.Name, "apply") || fd.Body == nil {
+			continue
+		}
+		if len(fd.Type.Params.List) == 0 || len(fd.Type.Params.List[0].Names) == 0 || fd.Type.Params.List[0].Names[0].Name != "next" {
+			return nil, fmt.Errorf("%s: first parameter is not `next`", fd.Name.Name)
+		}
+		hf := c18HF{name: fd.Name.Name, snapshot: "-", validateOk: true, rejectsRestore: true}
+		var snapPos, firstWrite ast.Node
+		nsnap := 0
+		// walk every block: statements in order, with access to the previous statement
+		var walk func(list []ast.Stmt)
+		var lastWriteText string
+		walk = func(list []ast.Stmt) {
+			for i, s := range list {
+				if as, ok := s.(*ast.AssignStmt); ok && len(as.Lhs) == 1 && exprText(as.Lhs[0]) == "before" {
+					nsnap++
+					if snapPos == nil {
+						snapPos = s
+						hf.snapshot = exprText(as.Rhs[0])
+					} else {
+						hf.snapshot = "multiple"
+					}
+				}
+				if c18IsWrite(s) {
+					hf.writes++
+					lastWriteText = c18AssignText(s)
+					if firstWrite == nil {
+						firstWrite = s
+					}
+					if snapPos == nil && c18AssignText(s) != "*next=initial" {
+						hf.writesBefore = true
+					}
+				}
+				if r, ok := s.(*ast.ReturnStmt); ok && len(r.Results) == 1 {
+					t := exprText(r.Results[0])
+					switch {
+					case strings.HasPrefix(t, "validateChanged("):
+						if t != "validateChanged(next,before,cmd)" || snapPos == nil {
+							hf.validateOk = false
+						}
+					case snapPos == nil:
+						// before any snapshot: nothing was written (checked by writesBefore)
+					case strings.HasPrefix(t, "reject("):
+						if i == 0 || c18AssignText(list[i-1]) != "*next=before" {
+							hf.rejectsRestore = false
+						}
+					case strings.HasPrefix(t, "noop("):
+					default:
+						if _, ok := r.Results[0].(*ast.CompositeLit); !ok {
+							hf.other++
+						}
+					}
+				}
+				switch x := s.(type) {
+				case *ast.IfStmt:
+					walk(x.Body.List)
+					if e, ok := x.Else.(*ast.BlockStmt); ok {
+						walk(e.List)
+					} else if e, ok := x.Else.(*ast.IfStmt); ok {
+						walk([]ast.Stmt{e})
+					}
+				case *ast.ForStmt:
+					walk(x.Body.List)
+				case *ast.RangeStmt:
+					walk(x.Body.List)
+				case *ast.BlockStmt:
+					walk(x.List)
+				case *ast.SwitchStmt:
+					for _, c := range x.Body.List {
+						walk(c.(*ast.CaseClause).Body)
+					}
+				}
+			}
+		}
+		walk(fd.Body.List)
+		_ = lastWriteText
+		// applyInit: the only write replaces the whole candidate and is followed by `return changed()`
+		if hf.writes == 1 && snapPos == nil {
+			for _, s := range fd.Body.List {
+				if ifs, ok := s.(*ast.IfStmt); ok && len(ifs.Body.List) == 2 && c18AssignText(ifs.Body.List[0]) == "*next=initial" {
+					if r, ok := ifs.Body.List[1].(*ast.ReturnStmt); ok && len(r.Results) == 1 && exprText(r.Results[0]) == "changed()" {
+						hf.wholeReplace = true
+					}
+				}
+			}
+		}
+		out = append(out, hf)
+	}
+	if len(out) < 10 {
+		return nil, fmt.Errorf("mutation_handlers.go: only %d apply* handlers found", len(out))
+	}
+	return out, nil
 }
 
 func c19EndsInReturnC18(b *ast.BlockStmt) bool {
